@@ -19,7 +19,7 @@ func init() { checks["C18"] = c18 }
 func c18(args []string) {
 	c := chk.New("C18", "exploration", args)
 	c.Build(false)
-	c.Rule("[two members per producing task: both out-ports of the upstream process wired into one sub-stream] [path shapes] sub-streams whose members mix relative, parent-relative and absolute paths (command and Go-function consumers): all members, arrival order, each readable from the task's working directory, each an Upstream key; src(n) -> 1 or 2 upstream processes (random task durations) -> recorder -> StreamToSubStream -> task with {i:x|join:SEP}: sub-stream lengths {0,1,2,B,B+1,3B} for SCIPIPE_BUFSIZE B in {1,3} (thorough also 128), separators {' ', ',', ':', ' -I ', '.and.', '..'} (and, printed by printf, separators containing a newline; the same joined port used three times in one command with different modifiers; a Go function writing through OutIP().Write() in a task with a joined in-port; two sub-streams reaching one joined in-port with default output names; the same file arriving twice on one sub-stream; a sub-stream fed by a hand-written component instead of StreamToSubStream; members that carry tags of their own), maxConcurrentTasks in {1,4}; without modifiers the task command is vcmd, which opens every path it was given from its working directory; with modifiers (%.txt, s/x/y/, basename) the command is an echo and only the strings are judged; oracle: exactly one start event of the joining process, the member paths in its argv == the sequence the recorder in front of the sub-stream saw (arrival order), all readable, the recorded command contains them joined by exactly SEP with modifiers applied to each member, audit Upstream keys == member paths and each names the upstream task; plus close storms: 2-8 one-file sources fan into a StreamToSubStream, built and run 1500-3000 times inside one child process (hooks passive in most of them) - exactly one sub-stream must come out per run. distinct_nontrivial = distinct (length, B, separator, modifiers, fan-in, config) cases")
+	c.Rule("[two members per producing task: both out-ports of the upstream process wired into one sub-stream] [path shapes] sub-streams whose members mix relative, parent-relative and absolute paths (command and Go-function consumers): all members, arrival order, each readable from the task's working directory, each an Upstream key; src(n) -> 1 or 2 upstream processes (random task durations) -> recorder -> StreamToSubStream -> task with {i:x|join:SEP}: sub-stream lengths {0,1,2,B,B+1,3B} for SCIPIPE_BUFSIZE B in {1,3} (thorough also 128), separators {' ', ',', ':', ' -I ', '.and.', '..'} (and, printed by printf, separators containing a newline; the same joined port used three times in one command with different modifiers; a Go function writing through OutIP().Write() in a task with a joined in-port; two sub-streams reaching one joined in-port with default output names; the same file arriving twice on one sub-stream; a sub-stream fed by a hand-written component instead of StreamToSubStream; members that carry tags of their own), maxConcurrentTasks in {1,4}; without modifiers the task command is vcmd, which opens every path it was given from its working directory; with modifiers (%.txt, s/x/y/, basename; written behind or in front of the join directive) the command is an echo and only the strings are judged; oracle: exactly one start event of the joining process, the member paths in its argv == the sequence the recorder in front of the sub-stream saw (arrival order), all readable, the recorded command contains them joined by exactly SEP with modifiers applied to each member, audit Upstream keys == member paths and each names the upstream task; plus close storms: 2-8 one-file sources fan into a StreamToSubStream, built and run 1500-3000 times inside one child process (hooks passive in most of them) - exactly one sub-stream must come out per run. distinct_nontrivial = distinct (length, B, separator, modifiers, fan-in, config) cases")
 	c.Assume("with two upstream processes the arrival order is whatever the recorder saw; it is not predicted")
 	rng := c.Rand("c18")
 	type job struct {
@@ -38,7 +38,7 @@ func c18(args []string) {
 	for _, b := range bs {
 		for _, n := range []int{0, 1, 2, b, b + 1, 3 * b} {
 			for si, sep := range []string{"space", "comma", "colon", "dashI", "dotand", "dotdot"} {
-				for mi, mods := range []string{"", "", "|%.out", "|s/U/V/", "|basename"} {
+				for mi, mods := range []string{"", "", "|%.out", "|s/U/V/", "|basename", "<|%.out", "<|basename"} { // "<": the modifier is written in front of the join directive
 					if !c.Thorough() && (si+mi+n)%3 != 0 {
 						continue
 					}
@@ -91,6 +91,9 @@ func c18(args []string) {
 			jn.Cmd = spec.BuildCmd("JN", []spec.PortDecl{{Name: "in", Join: j.sep}}, []spec.PortDecl{{Name: "out"}}, nil, nil, nil)
 		} else {
 			jn.Cmd = "echo J:{i:in|join:" + sepStr + j.mods + "}:J > {o:out}"
+			if strings.HasPrefix(j.mods, "<") {
+				jn.Cmd = "echo J:{i:in" + j.mods[1:] + "|join:" + sepStr + "}:J > {o:out}"
+			}
 		}
 		s.Procs = append(s.Procs, jn)
 		s.Conns = append(s.Conns, &spec.Conn{From: "REC.out", To: "SS.in"}, &spec.Conn{From: "SS.substream", To: "JN.in"})
@@ -122,7 +125,7 @@ func c18(args []string) {
 		var exp []string
 		for _, m := range arrived {
 			v := m
-			switch j.mods {
+			switch strings.TrimPrefix(j.mods, "<") {
 			case "|%.out":
 				v = strings.TrimSuffix(v, ".out")
 			case "|s/U/V/":
